@@ -87,6 +87,14 @@ struct ParaRun : NodeEnv {
     void op(const Op &o) {
         const std::string &k = o.k; if (k == "fault") return; size_t mk = w.mark(); uint64_t w0 = S().nvmWrites, r0 = S().nvmReads;
         if (k == "ram") { size_t gi = (size_t)o.arg(0) % g.size(); uint32_t b = (uint32_t)o.arg(1) % g[gi].size; S().paraRam[gi][b] = (uint8_t)o.arg(2); g[gi].ramUnknown = false; }
+        else if (k == "read") {   // a plain SDO read of 1010h / 1011h (any sub-index): no driver call, no byte of RAM or NVM may change, no default callback
+            std::vector<std::vector<uint8_t>> ramBefore; for (size_t i = 0; i < g.size(); i++) ramBefore.push_back(ramOf(i)); std::vector<uint8_t> nvmBefore = S().nvm;
+            uint32_t val = 0; int sub = (int)o.arg(1) % (nSub + 2); (void)sdoRead((uint16_t)(o.arg(0) ? 0x1011 : 0x1010), (uint8_t)sub, val); cov.hit(sub == 0 ? "read-sub0" : "read-sub"); nontrivial = true;
+            std::string ctx = std::string("SDO read of ") + (o.arg(0) ? "1011h:" : "1010h:") + std::to_string(sub);
+            for (size_t i = mk; i < w.evs.size(); i++) if (w.evs[i].kind == EV_NVMW || w.evs[i].kind == EV_NVMR || w.evs[i].kind == EV_PARADEFAULT) { fail("para/read-touched-storage", ctx + " called the NVM driver or the default callback"); return; }
+            for (size_t i = 0; i < g.size(); i++) if (ramOf(i) != ramBefore[i]) { fail("para/read-touched-ram", ctx + " changed the RAM image of group " + std::to_string(i)); return; }
+            if (S().nvm != nvmBefore) { fail("para/read-touched-storage", ctx + " changed NVM"); return; }
+        }
         else if (k == "store" || k == "restore") {
             bool store = k == "store"; int sub = (int)o.arg(0) % (nSub + 2); uint32_t sig = (uint32_t)o.arg(1); uint32_t right = store ? 0x65766173u : 0x64616F6Cu;
             std::vector<std::vector<uint8_t>> ramBefore; for (size_t i = 0; i < g.size(); i++) ramBefore.push_back(ramOf(i)); std::vector<uint8_t> nvmBefore = S().nvm;
@@ -157,6 +165,7 @@ Plan gen_para(Rng &r, bool thorough) {
         else if (c < 13) { int64_t sig = r.chance(3, 4) ? 0x65766173 : r.pick<int64_t>({0x65766172, 0x73617665, 0, 0x64616F6C, 0x65766173 ^ 0x01000000, 0x00766173}); p.ops.push_back(Op("store", {r.chance(4, 5) ? r.range(1, nsub) : r.range(0, nsub + 1), sig})); }
         else if (c < 16) { int64_t sig = r.chance(3, 4) ? 0x64616F6C : r.pick<int64_t>({0x64616F6D, 0x6C6F6164, 0, 0x65766173}); p.ops.push_back(Op("restore", {r.chance(4, 5) ? r.range(1, nsub) : r.range(0, nsub + 1), sig})); }
         else if (c < 18) p.ops.push_back(Op("nmt", {r.pick<int64_t>({129, 130})}));
+        else if (c == 18) p.ops.push_back(Op("read", {(int64_t)r.below(2), r.chance(1, 2) ? 0 : r.range(0, nsub + 1)}));
         else p.ops.push_back(Op("powercycle"));
     }
     if (r.chance(1, 2)) p.ops.push_back(Op("powercycle"));
